@@ -79,6 +79,8 @@ fn replay(path: &str) -> i32 {
         .unwrap_or_default();
     let budget = params["dev_budget"].as_u64().unwrap_or(0) as u32;
     let sc = props::scenario_by_name(name, &params);
+    pvcore::hang::set_context(v["property"].as_str().unwrap_or("?"), name, &params);
+    pvcore::hang::start_monitor();
     let ex = pvcore::explore::replay(choices, budget, |c, e| sc(c, e));
     println!("scenario {} params {}", name, params);
     if let Some(smp) = &ex.sample {
